@@ -4,6 +4,13 @@ import "verif/checker/internal/core"
 
 func init() {
 	register(&Prop{
+		ID:    "C18",
+		Rules: []*Rule{rEffect},
+		Explain: "Decides, for every schedule at once, that no hand-written module function reachable from a read-only operation writes to state shared between goroutines: not to (anything reachable from) an error object through a non-fresh pointer, not to a package-level variable or map (unless under a dominating Lock()), and that no map iteration order can reach a result (determinism). " +
+			"NOT decided: races inside dependencies (redact, sentry, fmt, logtags), foreign error types' methods, 'same result as alone' beyond absence of shared writes and map-order dependence.",
+		Trusted: []string{"go/ssa + VTA call graph (no go/pointer: freshness is by allocation site and call-site check)", "dependencies are race-free for read-only use"},
+	})
+	register(&Prop{
 		ID:    "C11",
 		Rules: []*Rule{rCodec, rRegType, rErrnoTable, rStackSlot, rTreeRec},
 		Explain: "Decides, for every registered type key, that each annotation field has a wire slot that the writer fills from that same field and the reader restores into that same field (payload members, positional safe details, message), that decoders rebuild the key's own type (so flag types recognised by Go type survive), that errno predicates travel in matching pairs, and that the printed-stack slot is re-parsed for the same key set by both stack accessors. " +
